@@ -183,6 +183,8 @@ def run_case(item):
     kind, seed, shift = item
     if kind == "timing":
         return run_timing_case(item)
+    if kind == "rerun":
+        return run_rerun_case(item)
     if kind == "overlap":
         project, meta = gen_overlap(seed)
     else:
@@ -391,3 +393,172 @@ def run_timing_case(item):
     return {"item": item, "meta": {}, "cls": res["j1"]["cls"], "nrej": 0, "diffs": diffs,
             "max_running": max(r["max_running"] or 0 for r in res.values()),
             "project": project.to_json() if diffs else None}
+
+
+# ---------------------------------------------------------------------------------------------
+# second builds in which sub-plans are RE-EXECUTED while sibling steps use what was declared under
+# them.  `Step.reset_for_rerun` of a re-executed sub-plan detaches its whole product subtree; the
+# sub-plan then declares the products again one by one (unchanged ones are recycled without being
+# run).  A concurrently running sibling that amends / defines inputs among the files of that
+# subtree sees them attached, detached or re-attached depending on the arrival order of its
+# request, and is deferred or not; the outcome of the build may not depend on it.
+# ---------------------------------------------------------------------------------------------
+
+def gen_rerun(seed) -> tuple[e3.Project, list, dict]:
+    """(project, edits of the second build, meta).  Sub-plans p_i define producers (directly or
+    through a nested script n_i); workers u_j (siblings of the sub-plans, or products of ANOTHER
+    sub-plan) amend outputs of those producers as inputs and/or define consumers of them; `z` folds
+    the workers' outputs.  The edits change the scripts of some sub-plans and some workers
+    trivially (a leading `print`), optionally a source that a producer reads."""
+    rng = random.Random(f"c02-rerun-{seed}")
+    nsub = rng.randint(1, 2)
+    subs = [f"p{i}.py" for i in range(nsub)]
+    sources = {f"s{i}.txt": f"source {i} {seed}\n" for i in range(rng.randint(1, 3))}
+    scripts = {"plan.py": [], **{sp: [] for sp in subs}}
+    commands = {}
+    script_files = list(subs)
+    avail = sorted(sources)
+    outs = []                 # (path, owning sub-plan)
+    nested = {}               # sub-plan -> nested script that declares (part of) its producers
+    for i in range(rng.randint(1, 4)):
+        owner = rng.choice(subs)
+        inp = sorted(rng.sample(avail, rng.randint(0, min(2, len(avail)))))
+        out = f"o{i}.txt"
+        act = {"op": "run", "label": f"c{i}", "shell": True, "inp": inp, "out": [out]}
+        commands[f"c{i}"] = [{"op": "auto"}]
+        where = owner
+        if rng.random() < 0.3:
+            # a producer two levels below the sub-plan: the detached subtree is deeper
+            if owner not in nested:
+                nested[owner] = f"n{len(nested)}.py"
+                scripts[nested[owner]] = []
+                script_files.append(nested[owner])
+                scripts[owner].append({"op": "run", "label": f"./{nested[owner]}"})
+            where = nested[owner]
+        scripts[where].append(act)
+        avail.append(out)
+        outs.append((out, owner))
+    workers, wouts = [], []
+    for j in range(rng.randint(1, 3)):
+        w = f"u{j}.py"
+        picked = rng.sample(outs, rng.randint(1, min(2, len(outs))))
+        amended = sorted(p for p, _ in picked)
+        initial = sorted(rng.sample(sorted(sources), rng.randint(0, 1)))
+        others = [sp for sp in subs if sp not in {o for _, o in picked}]
+        owner = rng.choice(others) if others and rng.random() < 0.3 else "plan.py"
+        mode = rng.choices(["amend", "define", "both"], weights=[6, 2, 2])[0]
+        body = []
+        wout = f"w{j}.txt"
+        if mode in ("define", "both"):
+            body.append({"op": "run", "label": f"d{j}", "shell": True, "inp": amended, "out": [f"d{j}.txt"]})
+            commands[f"d{j}"] = [{"op": "auto"}]
+        if mode in ("amend", "both"):
+            body.append({"op": "amend", "inp": amended})
+            body.append({"op": "read", "paths": initial + amended})
+        else:
+            body.append({"op": "read", "paths": initial})
+        body.append({"op": "write", "path": wout})
+        scripts[w] = body
+        script_files.append(w)
+        scripts[owner].append({"op": "run", "label": f"./{w}", "inp": initial, "out": [wout]})
+        workers.append(w)
+        wouts.append(wout)
+    if rng.random() < 0.6:
+        scripts["plan.py"].append({"op": "run", "label": "z", "shell": True, "inp": sorted(wouts), "out": ["z.txt"]})
+        commands["z"] = [{"op": "auto"}]
+    for sp in subs:
+        rng.shuffle(scripts[sp])
+        scripts["plan.py"].append({"op": "plan", "label": f"./{sp}"})
+    rng.shuffle(scripts["plan.py"])
+    scripts["plan.py"].insert(0, {"op": "static", "paths": sorted(script_files) + sorted(sources)})
+    project = e3.Project(sources=sources, program={"scripts": scripts, "commands": commands})
+    # ---- the second build
+    ch_subs = [sp for sp in subs if rng.random() < 0.8] or [rng.choice(subs)]
+    ch_workers = [w for w in workers if rng.random() < 0.75] or [rng.choice(workers)]
+    edits = [{"op": "script", "path": f, "actions": [{"op": "print", "text": f"second version {seed}"}] + scripts[f]}
+             for f in ch_subs + ch_workers]
+    for sp in ch_subs:
+        if sp in nested and rng.random() < 0.3:
+            n = nested[sp]
+            edits.append({"op": "script", "path": n, "actions": [{"op": "print", "text": "v2"}] + scripts[n]})
+    if rng.random() < 0.3:
+        s = rng.choice(sorted(sources))
+        edits.append({"op": "write", "path": s, "content": f"changed {s} {seed}\n"})
+    meta = {"subs": [f"./{sp}" for sp in ch_subs], "workers": [f"./{w}" for w in ch_workers],
+            "nested": [f"./{n}" for n in nested.values()]}
+    return project, edits, meta
+
+
+def rerun_schedules(meta: dict, seed) -> list:
+    subs, workers = meta["subs"], meta["workers"]
+    both = dict(policy="fifo", points=["start", "end"])
+    return [
+        ("j1", dict(njob=1)),
+        # every changed worker issues its requests and stops before any sub-plan re-declares anything
+        ("j4-workers-first", dict(njob=4, schedule=dict(
+            both, order=[f"start:{w}" for w in workers] + [f"end:{w}" for w in workers]))),
+        # the workers' requests arrive while the subtree is detached, the sub-plans stop first
+        ("j4-workers-inside", dict(njob=4, schedule=dict(
+            both, order=[f"start:{w}" for w in workers] + [f"start:{s}" for s in subs]
+            + [f"end:{s}" for s in subs]))),
+        ("j4-subs-first", dict(njob=4, schedule=dict(
+            both, order=[f"start:{s}" for s in subs] + [f"end:{s}" for s in subs]))),
+        ("j4-seed-a", dict(njob=4, schedule={"seed": 101 + seed % 997, "points": ["start", "end"]})),
+        # (no lifo here: a worker that was refused a detached input is PENDING, not deferred, and is
+        # dispatched again at once; releasing the newest gate first starves the sub-plan until the
+        # worker hits the defer cap -- see `run_busy_defer_scenario`)
+        ("j4-seed-b", dict(njob=4, schedule={"seed": 202 + seed % 991, "points": ["start", "end"]})),
+    ]
+
+
+def run_rerun_case(item):
+    """First build (-j1, no gates), the edits, then the same second build under every schedule."""
+    kind, seed, _ = item
+    project, edits, meta = gen_rerun(seed)
+    res, first = {}, None
+    try:
+        for name, kw in rerun_schedules(meta, seed):
+            rs = e3.run_history(project, [{"edits": edits, "build": kw}], njob=1, timeout=60)
+            first = e3.rc_class(rs[0].returncode)
+            res[name] = _summary(rs[-1])
+            res[name]["executed"] = [c["label"] for c in rs[-1].commands]
+    except Exception as e:  # noqa: BLE001 - reported by the caller
+        return {"item": item, "meta": meta, "crash": f"{type(e).__name__}: {e}", "project": project.to_json()}
+    diffs = compare(res, texts=False)
+    if first != "ok":
+        diffs.append(("rerun-setup", "first", first))
+    rerun = set().union(*[set(r["executed"]) for r in res.values()])
+    return {"item": item, "meta": {"rerun_subs": sorted(rerun & set(meta["subs"])),
+                                   "rerun_workers": sorted(rerun & set(meta["workers"])),
+                                   "deferred_somewhere": any(len(r["executed"]) != len(set(r["executed"]))
+                                                             for r in res.values())},
+            "cls": res["j1"]["cls"], "nrej": len(res["j1"]["rejected"]), "diffs": diffs,
+            "max_running": max(r["max_running"] or 0 for r in res.values()),
+            "project": dict(project.to_json(), edits=edits) if diffs else None}
+
+
+def run_busy_defer_scenario(cap: int = 3) -> dict:
+    """The unchanged engine, counted as evidence (design.d/C02.md, 'observed'): a worker that is
+    refused a DETACHED BUILT input is PENDING without the deferred flag (`has_unavailable_dynamic_input`
+    looks at file states only) and a detached dynamic input does not block dispatch, so the worker is
+    handed out again at once, and again, until the sub-plan that is being re-executed has re-declared
+    the producer -- or until the defer cap turns the worker into a FAILED step.  With `--defer-cap`
+    = `cap` and a schedule that lets the worker run `cap` + 1 times before the sub-plan's command
+    starts, the second build FAILS; under -j1 it succeeds."""
+    plan = [{"op": "static", "paths": ["sub.py", "use.py"]}, {"op": "plan", "label": "./sub.py"},
+            {"op": "run", "label": "./use.py", "out": ["u.out"]}]
+    sub = [{"op": "run", "label": "w", "shell": True, "out": ["w.out"]}]
+    use = [{"op": "amend", "inp": ["w.out"]}, {"op": "read", "paths": ["w.out"]}, {"op": "write", "path": "u.out"}]
+    p = e3.Project(sources={}, program={"scripts": {"plan.py": plan, "sub.py": sub, "use.py": use},
+                                        "commands": {"w": [{"op": "auto"}]}})
+    edit = [{"op": "script", "path": f, "actions": [{"op": "print", "text": "second version"}] + a}
+            for f, a in (("sub.py", sub), ("use.py", use))]
+    order = ["start:./use.py", "end:./use.py"] * (cap + 1) + ["start:./sub.py"]
+    out = {}
+    for name, kw in (("j1", dict(njob=1)),
+                     ("starved", dict(njob=2, schedule={"order": order, "policy": "fifo", "points": ["start", "end"]}))):
+        rs = e3.run_history(p, [{"edits": edit, "build": kw}], defer_cap=cap)
+        out[name] = e3.rc_class(rs[-1].returncode)
+        out[name + "_runs"] = sum(1 for c in rs[-1].commands if c["label"] == "./use.py")
+    out["worker_runs"] = out["starved_runs"]
+    return out
